@@ -42,7 +42,12 @@ class GraphConfigImpl:
 
         file_path = '/'.join(node.__module__.split('.'))
 
-        line_number = inspect.getsourcelines(node)[-1]
+        try:
+            line_number = inspect.getsourcelines(node)[-1]
+        except (OSError, TypeError):
+            # The source is not available (a class created dynamically, a byte-code only module)
+            return f'{file_path}.py'
+
         return f'{file_path}.py#L{line_number}'
 
     def _generate_nodes(self) -> t.List[schema.Node]:
